@@ -490,6 +490,10 @@ def check_conv(ctx, case):
 
     try:
         q1 = m['eval_qty'](qt)
+        if not hasattr(q1, 'has_units') or not hasattr(q1, 'in_units'):
+            # a text with a dimension that comes back as a bare number has lost it
+            ctx.fail('conv:text-with-units-is-not-a-quantity', 'eval_qty(%r) -> %r (%s), model dimension %r' % (qt, q1, type(q1).__name__, mq.d))
+            return
         r = float(mq.v / mu.v)
         # has_units
         for hu in (q1.has_units(ut), m['has_units'](q1, ut)):
